@@ -1,5 +1,6 @@
 import Driver.Reasoning
 import DcVerif.Model.Collections
+import DcVerif.Model.CausalGraph
 /-! Driver for C12. One model state per family (every container receives the same calls); for every container the
 expected iteration order comes from `Model.Collections.items` (sequence order; ascending keys for the B-tree; for
 the hash map the order the implementation itself reports, checked to be a permutation of the keys), and every
@@ -36,6 +37,9 @@ structure St where
   causes : List Cause := []
   /-- activation cells per container (they legitimately diverge: data is positional) -/
   cells : List Cells := []
+  /-- causal graphs: the graph as `Model.CausalGraph` holds it (every node a plain singleton whose observation is the
+      *verdict code* of the harness' causal function on its datum, see `encode`) -/
+  cg : CausalGraph.CG := {}
 
 def fieldsOf (dump : String) : List (String × String) :=
   (dump.splitOn ";").map (fun f => match f.splitOn "=" with
@@ -137,6 +141,41 @@ def parseCause (i : Nat) (desc : String) : Cause :=
 def allCellIds (cs : List Cause) : List Nat :=
   cs.flatMap (fun c => match c with | .single s => [s.id] | .coll _ inner => inner.map (·.id))
 
+/-- observation code `Model.CausalGraph.decode` maps to the verdict of kind `k` on datum `d` (0 true, 1 false, 2 error) -/
+def encode (k : Nat) (d : Int) : Nat :=
+  match evalKind k d with
+  | some true => 0
+  | some false => 1
+  | none => 2
+
+def intList (x : String) : List Int := if x == "-" || x == "" then [] else (x.splitOn ",").map (fun y => y.toInt?.getD 0)
+
+def showRes : CausalGraph.Res → String
+  | .ok true => "ok1"
+  | .ok false => "ok0"
+  | .err => "err"
+  | .panic => "panic"
+
+def buildCG (n : Nat) (edges : List (Nat × Nat)) : CausalGraph.CG :=
+  let g0 := (List.range n).foldl (fun g i =>
+    if i == 0 then (CausalGraph.addRoot g { id := i, fn := .plain }).1 else (CausalGraph.addNode g { id := i, fn := .plain }).1) {}
+  edges.foldl (fun g e => (CausalGraph.addEdge g e.1 e.2 0).getD g) g0
+
+/-- the verdict `Model.CausalGraph` gives for a graph op of the harness (`none`: not replayed — shortest-path ops, whose
+    answer depends on which of several shortest paths `astar` picks) -/
+def graphModel (s : St) (op : String) (args : List String) : Option String :=
+  let fuel := 1000000
+  let enc := fun (ds : List Int) => ds.zipIdx.map (fun (d, i) => encode (s.kinds.getD i 0) d)
+  match op with
+  | "gall" => some (match CausalGraph.reasonAll fuel s.cg (enc (intList (args.getD 0 "-"))) none with
+      | some (r, _) => showRes r | none => "no-answer-within-fuel")
+  | "gsub" => some (match CausalGraph.reasonSub fuel s.cg (natArg args 0) (enc (intList (args.getD 1 "-"))) none with
+      | some (r, _) => showRes r | none => "no-answer-within-fuel")
+  | "gone" =>
+    let i := natArg args 0
+    some (showRes (CausalGraph.reasonSingle s.cg i ((intList (args.getD 1 "-")).map (encode (s.kinds.getD i 0)))).1)
+  | _ => none
+
 /-- model answers for every container of the implementation's answer, through `f name order` -/
 def perContainer (s : St) (ans : String) (f : String → List Nat → String) : String × List (String × String) :=
   let cs := parseContainers ans
@@ -171,6 +210,11 @@ def handler : Handler St where
       let its := (lst (args.getD 2 "-")).zipIdx.map (fun (x, i) => parseCause i x)
       ({ fam := fam, n := its.length, keys := (lst (args.getD 1 "-")).map (fun k => k.toNat?.getD 0), causes := its,
          cells := names.map (fun _ => fun _ => false) }, [])
+    | "graph" =>
+      let ks := (lst (args.getD 1 "-")).map (fun k => k.toNat?.getD 0)
+      let es := (lst (args.getD 2 "-")).filterMap (fun e => match e.splitOn "-" with
+        | [a, b] => some (a.toNat?.getD 0, b.toNat?.getD 0) | _ => none)
+      ({ fam := fam, kinds := ks, n := ks.length, cg := buildCG ks.length es }, [])
     | _ => ({ fam := fam }, [])
   onOp s op args ans :=
     match s.fam, op with
@@ -252,7 +296,11 @@ def handler : Handler St where
         (if field fs "t" != g then ["SPECFAIL twin-differs: rebuilt graph"] else []) ++
         (if field fs "ac" != field fs "ag" || field fs "at" != field fs "ag" then
           ["SPECFAIL clone-or-twin-aggregates-differ"] else [])
-      (s, bad)
+      -- the graph's own verdict, replayed on `Model.CausalGraph` (the model C01's theorems and C12Graph's twin theorems are about)
+      let mm := match graphModel s op args with
+        | some m => if m == g then [] else [s!"MISMATCH impl={g} model={m}"]
+        | none => []
+      (s, bad ++ mm)
     | _, _ => (s, ["MISMATCH unknown-op"])
 
 end Driver.C12
